@@ -4,6 +4,7 @@ import (
 	"bytes"
 	"fmt"
 	"io"
+	"os"
 	"io/fs"
 	"math/big"
 	"strings"
@@ -82,6 +83,9 @@ type View struct {
 	GrantKeys [][32]byte
 	ClientOK  bool
 }
+
+// GViewOf projects a stored grant.
+func GViewOf(a authgrants.Authgrant) GView { return gviewOf(a) }
 
 func gviewOf(a authgrants.Authgrant) GView {
 	return GView{Type: byte(a.GrantType), Start: a.StartTime.Unix(), Exp: a.ExpTime.Unix(),
@@ -248,7 +252,10 @@ func init() {
 		if cur == nil || !cur.Known[name] || strings.ContainsAny(name, ":\n") {
 			return nil, thunks.ErrUserNotFound
 		}
-		ent, err := etcpwdparse.ParsePasswdLine(fmt.Sprintf("%s:x:1000:1000:u:/home/%s:/bin/true", name, name))
+		if homeBase != "/home" {
+			os.MkdirAll(homeBase+"/"+name, 0755) // a granted pty shell is started in the home directory
+		}
+		ent, err := etcpwdparse.ParsePasswdLine(fmt.Sprintf("%s:x:1000:1000:u:%s/%s:/bin/true", name, homeBase, name))
 		return &ent, err
 	}
 	thunks.TimeNow = func() time.Time {
@@ -286,7 +293,11 @@ func (w *World) Close() {
 	}
 }
 
-func akPath(user string) string { return "home/" + user + "/.hop/authorized_keys" }
+// homeBase is where the passwd thunk puts home directories ("/home" unless the dispatch level
+// needs them to exist on disk).
+var homeBase = "/home"
+
+func akPath(user string) string { return homeBase[1:] + "/" + user + "/.hop/authorized_keys" }
 
 func (w *World) key(i int) keys.DHPublicKey { return keys.DHPublicKey(w.Pool[i]) }
 
